@@ -132,6 +132,20 @@ CHECKS["C19"] = dict(
     technique=SYMEX, design_ref="DESIGN.md section 3, C19",
 )
 
+CHECKS["C01"] = dict(
+    engine="rex+symex", category="other",
+    text="PARTIAL. Decided: (1) for every reporter/law/journal string of the installed database that uses the default template, some extractor listing it recognises V R P (and V R at P) for every volume [1-9]\\d* and page \\d+ between non-alphanumeric neighbours - regular-language inclusion by z3, no length bound; (2) the reporter group's language is exactly the listed strings; (3) short-form extractors are derived from full ones; (4) _extract_full_citation's class wiring over edition-source subsets; (5) the real POST_SHORT/POST_FULL patterns, run by a priority-exact symbolic matcher on documented pin-cite contexts with arbitrary digits, capture exactly the written pin cite (matcher validated against the real regex engine on every path); (6) the full span starts at the extracted plaintiff (symbolic add_defendant).",
+    note="NOT decided: captures on longer contexts, party names, court lookup, parentheticals, 'exactly one citation per written citation' under overlapping patterns, full-span ends - these need the capture semantics of the C regex engines over long windows. Reporter strings with custom templates are outside (1)/(2).",
+    technique="regular-language inclusion by SMT (z3 seq/re) per extractor + symbolic regex matching over bounded symbolic character arrays + symbolic execution of the Python source",
+    design_ref="DESIGN.md section 3, C01",
+)
+CHECKS["C05"] = dict(
+    engine="symex", category="other",
+    text="PARTIAL (resolution half). Bounded symbolic verification of the real resolver on scenario lists (distinct cases with non-overlapping party names; short/supra references written to a ghost intended antecedent; id. with no/numeric/non-numeric pin cite): exactly one resource per case, every reference that is unambiguous by the property's criteria is grouped with its intended case, an id. with an impossible pin cite or after an unresolved citation is left out - z3 validity queries per path, counter-models replayed as real citation objects.",
+    note="NOT decided: that extraction produces those citation objects from running text (needs the regex engines end to end; its pieces are C01/C02/C17). Bounds: lists of 3 (quick) / 4 (thorough). Stubs as in C06.",
+    technique=SYMEX, design_ref="DESIGN.md section 3, C05",
+)
+
 PENDING = {}
 
 NOT_APPLICABLE = {
